@@ -91,7 +91,7 @@ func (g *gen) genFuncFor(typ *types.Slice) error {
 	p.P("return nil")
 	p.Out()
 	p.P("}")
-	if derive.IsComparable(typ.Elem()) {
+	if derive.IsComparable(typ.Elem()) && !derive.HasEqualMethod(typ.Elem()) {
 		maptyp := types.NewMap(typ.Elem(), types.NewStruct(nil, nil))
 		p.P("return %s(%s(list))", g.keys.GetFuncName(maptyp), g.set.GetFuncName(typ))
 		p.Out()
